@@ -808,7 +808,7 @@ package gorm
 //@   match mapdelete Statement.Clauses | mapwrite Statement.Clauses
 //@   in gorm.(*DB).Count gorm.(*DB).Count$*
 //@   min-sites 4
-//@   assert statement-of-the-instance: recv == tx.Statement [C06]
+//@   assert never-the-statement-of-a-reusable-handle: db.clone > 0 ==> recv != db.Statement [C06]
 
 //@ # ---------- C19: ToSQL renders the receiver's chain in a dry-run session ----------
 //@ # The handle given to the callback is a DryRun session (no driver call), without the implicit transaction, and it
